@@ -450,6 +450,12 @@ def run_property(pid, tier, seed, replay=None):
         # a disagreement is a violation when the implementation's own outcome breaks the property
         # (the harness marks that with "bad"); otherwise the model no longer describes the code
         concrete = [it for it in unexplained_mism if it.get("bad") or impl_panicked(it)]
+        if not concrete and prop.get("byte_exact") and proof_ok:
+            # the property fixes the exact bytes and the model is PROVED (obligations all check) to
+            # produce the bytes of the RFC 8554 / hash-sigs specification: an input on which the
+            # implementation releases other bytes than the model is a failing input of the property
+            concrete = [dict(it, why="the implementation's bytes differ from the specification's bytes (model proved equal to Spec/)")
+                        for it in unexplained_mism if it["k"] in prop["byte_exact"]]
         payload = {"what": "model and implementation disagree", "cases": (concrete or unexplained_mism)[:5],
                    "model_says": shown[-6000:]}
         violations.append(("correspondence", payload, not concrete))
